@@ -406,6 +406,72 @@ def main(tier, seed):
                                               skipped_out_of_domain=stats["skipped_domain"],
                                               skipped_ill_conditioned=stats["skipped_ill_conditioned"],
                                               by_length=stats["by_length"], by_style=stats["by_style"])
+    # ---- argument dtypes and layouts: whole-number vectors handed over as integer arrays of several widths (counts,
+    #      histograms, pixel values; zeros included where the domain allows them), and float64 values in strided / read-only
+    #      arrays. The closed form does not depend on the container: judged against the same reference.
+    import numpy as np
+    fstats = dict(cases=0, by_form={}, disagreements=0)
+    names_sorted = [nm for nm in spec_names if nm in D]
+    rot = seed % max(1, len(names_sorted))
+    rotating = set(names_sorted[(rot + 6 * j) % len(names_sorted)] for j in range(8))
+
+    def forms_for(name):
+        fs = [("int64", lambda v: np.array(v, dtype=np.int64))]
+        if name in rotating or tier == "thorough":
+            fs += [("int32", lambda v: np.array(v, dtype=np.int32)), ("uint8", lambda v: np.array(v, dtype=np.uint8)),
+                   ("int16", lambda v: np.array(v, dtype=np.int16))]
+            def strided(v):
+                w = np.full(2 * len(v) + 1, 3.25); w[1::2] = v
+                return w[1::2]
+            def readonly(v):
+                a = np.array(v, dtype=np.float64); a.setflags(write=False)
+                return a
+            fs += [("strided", strided), ("readonly", readonly)]
+        return fs
+
+    for name in names_sorted:
+        fn = D[name]
+        dom = metric_ref.DOMAIN[name]
+        if dom == "prob":
+            continue                      # probability vectors are not whole numbers
+        for n in (1, 2, 4, 7):
+            for rep_i in range(2 if tier == "quick" else 12):
+                lo = 1 if dom == "pos" else 0
+                xi = [rng.randint(lo, 5) for _ in range(n)]
+                yi = [rng.randint(lo, 5) for _ in range(n)]
+                if dom in ("nonneg", "real") or lo == 0:
+                    # shared empty bins: zero in both vectors at the same coordinate
+                    for t in range(n):
+                        if rng.random() < 0.3:
+                            xi[t] = yi[t] = 0
+                xf, yf = [float(v) for v in xi], [float(v) for v in yi]
+                r = ev.exact_and_bound(lambda o: metric_ref.reference(name, o, xf, yf))
+                if r[0] != "ok":
+                    continue
+                base, _ = call_impl(fn, xf, yf)
+                if not agrees(base, r[1], r[2]):
+                    continue              # reported by the float64 stream above, if it is a disagreement at all
+                for form, mk in forms_for(name):
+                    if form in ("strided", "readonly"):
+                        xa, ya = mk([v + 0.5 for v in xf]), mk([v + 0.25 for v in yf])
+                        rr = ev.exact_and_bound(lambda o: metric_ref.reference(name, o, [v + 0.5 for v in xf], [v + 0.25 for v in yf]))
+                        if rr[0] != "ok":
+                            continue
+                    else:
+                        xa, ya, rr = mk(xi), mk(yi), r
+                    try:
+                        got2 = float(fn(xa, ya)); note2 = ""
+                    except Exception as ex:  # noqa
+                        got2, note2 = None, "%s: %s" % (type(ex).__name__, ex)
+                    fstats["cases"] += 1; fstats["by_form"][form] = fstats["by_form"].get(form, 0) + 1
+                    if not agrees(got2, rr[1], rr[2]):
+                        fstats["disagreements"] += 1
+                        if fstats["disagreements"] <= 3:
+                            rep.violation("metric %r on %s arguments differs from its closed form: x=%r y=%r expected=%r got=%r (the same values as contiguous float64 arrays give %r)"
+                                          % (name, form, xa.tolist(), ya.tolist(), float(rr[1]), got2 if got2 is not None else note2, base),
+                                          dict(kind="metric_argument_form", name=name, form=form, x=xa.tolist(), y=ya.tolist(), expected=float(rr[1]),
+                                               got=got2 if got2 is not None else note2), key="metric:%s" % name)
+    rep.corr["argument_forms"] = fstats
     # ---- the reference table against the repository's pinned unit-test values (guards the spec table itself)
     pins, pin_bad = pinned_points(), []
     fl = errnum.FloatOps()
